@@ -152,7 +152,9 @@ func coalesceGlobals(printf printFn, dest, src map[string]interface{}, prefix st
 	// tables in globals.
 	for key, val := range sg {
 		if istable(val) {
-			vv := copyMap(val.(map[string]interface{}))
+			// A deep copy: the tables nested in a global table are merged into below,
+			// and what a subchart adds there must not show up in its parent or siblings.
+			vv := deepCopyMap(val.(map[string]interface{}))
 			if destv, ok := dg[key]; !ok {
 				// Here there is no merge. We're just adding.
 				dg[key] = vv
